@@ -16,7 +16,7 @@ from common import *  # noqa: E402,F403
 ENGINE_PROPS = ["C01", "C04", "C06", "C07", "C08", "C10", "C11", "C17", "C20"]
 
 BASE = {"N": 3, "Watch": False, "MaxChanges": 0, "Failures": False, "Slow": False, "Signals": False, "Skips": False,
-        "Inherit": False, "CapChan": 0, "CapInbox": 0, "AckLate": True, "RecordBefore": True, "StrictStart": False}
+        "Inherit": False, "CapChan": 0, "CapInbox": 0, "AckLate": True, "RecordBefore": True, "StrictStart": False, "Unrequests": False}
 SAFETY = ["TypeOK", "NoStepViolation", "OnceOnly", "ExitComplete", "ExitStatusRight", "KeepAlive",
           "ServiceUpForDependents", "SingleInstance", "CleanExit", "UpToDate"]
 
